@@ -1,5 +1,6 @@
 """C19 — library names resolve to the right shared objects or fail loudly."""
 import os
+import re
 import random
 import sys
 import tempfile
@@ -48,7 +49,10 @@ def gen_case(rng):
         elif r < 0.65:
             lines.append('\t' + gen_word(rng, names) + ' (compatibility version 1.0.0, current version 2.3.0)')
         elif r < 0.75:
-            lines.append(rng.choice(['prog:', '/tmp/lib' + rng.choice(names) + '.so:', 'a b:', ':', ' x: ']))
+            lines.append(rng.choice(['prog:', '/tmp/lib' + rng.choice(names) + '.so:', 'a b:', ':', ' x: ',
+                                     # otool prints one header per slice of a universal binary: words between the path and the colon
+                                     '/build/tmp-introspect/lib' + rng.choice(names) + '.bin (architecture x86_64):',
+                                     'lib' + rng.choice(names) + '.so.9 (for architecture arm64):']))
         elif r < 0.85:
             lines.append(rng.choice(['\tlinux-vdso.so.1 (0x00007ffd)', '\tstatically linked', 'libtool: warning',
                                      '', '   ']))
@@ -68,6 +72,11 @@ def run_impl(cases, pats, las):
     cwd = os.getcwd()
     tmp = tempfile.mkdtemp(prefix='giv19')
     os.chdir(tmp)
+    # directories of the working directory that are named like requested libraries (libgd built in ./gd): a request is only
+    # taken for a path when it is a file
+    for nm in NAMES:
+        if re.match(r'^[A-Za-z0-9_.+-]+$', nm) and nm not in ('.', '..') and len(os.listdir(tmp)) < 6:
+            os.makedirs(os.path.join(tmp, nm), exist_ok=True)
     res = []
     try:
         for names, out in cases:
@@ -98,7 +107,8 @@ def run_impl(cases, pats, las):
             os.unlink(os.path.join(tmp, 'x.la'))
         except OSError:
             pass
-        os.rmdir(tmp)
+        import shutil
+        shutil.rmtree(tmp, ignore_errors=True)
     return res, pres, lres, bres
 
 
